@@ -331,7 +331,7 @@ func (c *c03) Meta() engine.Meta {
 		Category:  "model_checking",
 		LevelName: "1 = single mutations / pre-image products, 2 = pairs of mutations of different fields, 3 = triples (thorough)",
 		Technique: "bounded-exhaustive mutation enumeration of signed transactions on the real application (twin oracle) + exhaustive bounded injectivity check of the signing pre-image",
-		Rule: "(a) 10 valid signed base transactions (all 8 types, deployment, call, transfer to a contract) at a state where each of them succeeds; mutation operators on the DECODED value of every field with the signature KEPT: version, time (+-1, 0, sign flip, +2^32, +2^63), nonce, claimed sender (5 other accounts, with their current nonce), receiver, amount (+-1, +1R, +2^64, +2^128, 0, x2), gas, gas price, type (relabel to each of the 8 types), every payload sub-field incl. the narrowed ones (heights +1 / +2^31 / +2^32 / +2^40 / +2^62, option type +2^16, options changed / appended / swapped, vote choice / proposal, call data, name / url boundary shift), the signature itself (every byte, truncation, extension, v+27, a signature of another transaction of the same sender) and the chain id (application initialised with another id; transaction signed for another id): all single mutations and all pairs of mutations of two different fields (thorough: also all triples over three different non-signature fields). Oracle: the mutant's DeliverTx code is non-zero, the unmodified transaction still succeeds afterwards, and the complete state equals the twin that never saw the mutants. " +
+		Rule: "(a) 10 valid signed base transactions (all 8 types, deployment, call, transfer to a contract) at a state where each of them succeeds; mutation operators on the DECODED value of every field with the signature KEPT: version, time (+-1, 0, sign flip, +2^32, +2^63), nonce, claimed sender (5 other accounts, with their current nonce), receiver, amount (+-1, +1R, +2^64, +2^128, 0, x2), gas, gas price, type (relabel to each of the 8 types), every payload sub-field incl. the narrowed ones (heights +1 / +2^31 / +2^32 / +2^40 / +2^62, option type +2^16, options changed / appended / swapped, vote choice / proposal, call data, name / url boundary shift), the signature itself (every byte, truncation, extension, v+27, a signature of another transaction of the same sender) and the chain id (application initialised with another id; transaction signed for another id): all single mutations and all pairs of mutations of two different fields (thorough: also all triples over three different non-signature fields). The node has seen the genuine transaction in a mempool check before the mutants arrive, and a second pass re-uses the genuine signature on altered copies with the next nonce after the genuine transaction was executed. Oracle: the mutant's DeliverTx code is non-zero, the unmodified transaction still succeeds afterwards, and the complete state equals the twin that never saw the mutants. " +
 			"(b) for every transaction type the full product of per-field value menus (values chosen to collide under any 32/64-bit narrowing: x, x+1, x+2^31, x+2^32, x+2^40, negative / wrapped): no two transactions that differ in an executed field share the signing pre-image (hash-set based). " +
 			"distinct_nontrivial = cases in which at least one mutant was rejected BY THE SIGNATURE CHECK (not by an earlier validation).",
 		Assumptions: []string{
@@ -453,6 +453,9 @@ func (c *c03) RunDesc(desc json.RawMessage) engine.Result {
 	}
 	ch := run.Chain
 	bySig, byOther, na := 0, 0, 0
+	// the node has SEEN the genuine transaction (mempool check) before the altered copies arrive: the
+	// front-running scenario, and the one in which any per-signature shortcut would be primed
+	ch.Check(base, nil)
 	ch.BeginBlock(sim.BlockOpts{Proposer: "V0"})
 	before, _ := ch.DumpState(0, ch.Deployed)
 	for i, j := range jobs {
@@ -500,6 +503,50 @@ func (c *c03) RunDesc(desc json.RawMessage) engine.Result {
 	if out.Code != 0 {
 		res.Violations = append(res.Violations, engine.Violation{Property: "C03", Kind: "genuine-transaction-fails-after-mutants", Site: base.Type,
 			Detail: fmt.Sprintf("after %d rejected mutants the genuine <%s> fails: %s", len(jobs), base.String(), firstLineOf(out.Rec.Log)), Case: desc})
+	}
+	// second pass (single mutations only): the genuine transaction HAS BEEN EXECUTED; its signature is re-used on
+	// altered copies that carry the sender's NEXT nonce, so that nothing but the signature stands in their way
+	if cs.Mode == "mutate" && out.Code == 0 {
+		genuineSig := append([]byte{}, out.Tx.Sig...)
+		for i, j := range jobs {
+			if cs.Only >= 0 && i != cs.Only+100000 {
+				continue
+			}
+			tx := ch.Build(base, ch.EnvFor(base, nil)) // next nonce
+			tx.Sig = append([]byte{}, genuineSig...)
+			if strings.HasPrefix(j.fields, "sig") || strings.HasPrefix(j.fields, "nonce") {
+				continue
+			}
+			if !j.apply(tx, ch) {
+				continue
+			}
+			bz := encodeTx(tx)
+			if bz == nil {
+				continue
+			}
+			rec, resp := ch.DeliverRaw(bz, "REUSED-SIG "+j.name)
+			res.Transitions++
+			if rec.Panic == "" && resp.Code == 0 {
+				one := cs
+				one.Only = i + 100000
+				res.Violations = append(res.Violations, engine.Violation{Property: "C03", Kind: "executed-signature-authorises-another-transaction", Site: base.Type + ": " + j.fields,
+					Detail: fmt.Sprintf("after the genuine <%s> was executed, a copy with the next nonce, mutation <%s> and the genuine transaction's signature returned code 0", base.String(), j.name), Case: sim.MustJSON(one)})
+				break
+			}
+			res.Count("reused_signature_mutants", 1)
+		}
+		// plain re-use: next nonce, nothing else changed
+		tx := ch.Build(base, ch.EnvFor(base, nil))
+		tx.Sig = append([]byte{}, genuineSig...)
+		if bz := encodeTx(tx); bz != nil {
+			if rec, resp := ch.DeliverRaw(bz, "REUSED-SIG next nonce only"); rec.Panic == "" && resp.Code == 0 {
+				res.Violations = append(res.Violations, engine.Violation{Property: "C03", Kind: "executed-signature-authorises-another-transaction", Site: base.Type + ": nonce",
+					Detail: fmt.Sprintf("after the genuine <%s> was executed, the same content with the next nonce and the OLD signature returned code 0", base.String()), Case: desc})
+			}
+		}
+	}
+	if len(res.Violations) > 0 {
+		return res
 	}
 	ch.EndBlock()
 	ch.Commit()
